@@ -283,6 +283,68 @@ class Program:
                         return ('dep', fld[0])
         return ('indirect', cv)
 
+    # ---- roles: internal helpers are found by what they do, not by what they are called or how their parameters are ordered
+    def roles(self, kind):
+        """kind 'lazy': functions that hand two of their own parameters to dep:u8_nfkd as (source, output): [Role(fn, {'src': i, 'out': j})]
+        kind 'tokeniser': functions called, after a lazy-normaliser call, with the buffer that call filled and a local array of pointers:
+        [Role(fn, {'buf': i, 'words': j})]; Role.consts maps further parameter indices to the constant every call site passes"""
+        if not hasattr(self, '_roles'): self._roles = {}
+        if kind in self._roles: return self._roles[kind]
+        out = []
+        def param_of(f, v):
+            v, off = strip_casts(f, v)
+            return v['n'] if v['k'] == 'a' and off == 0 else None
+        def alloca_of(f, v):
+            v, off = strip_casts(f, v)
+            if v['k'] == 'i' and f.insts[v['id']].op == 'alloca' and off == 0: return f.insts[v['id']]
+            return None
+        if kind == 'lazy':
+            for f in self.defined.values():
+                for i, t in self.calls(f):
+                    if t == ('dep', 'u8_nfkd') and len(i.ops) >= 2:
+                        a0, a1 = param_of(f, i.ops[0]), param_of(f, i.ops[1])
+                        if a0 is not None and a1 is not None and a0 != a1 and not any(r.fn is f for r in out):
+                            out.append(Role(f, {'src': a0, 'out': a1}))
+        elif kind == 'tokeniser':
+            lazy = {r.fn.name: r for r in self.roles('lazy')}
+            seen = {}
+            for f in self.defined.values():
+                calls = list(self.calls(f))
+                for c1, t1 in calls:
+                    if t1[0] != 'direct' or t1[1] not in lazy: continue
+                    r1 = lazy[t1[1]]
+                    if r1.args['out'] >= len(c1.ops): continue
+                    B = alloca_of(f, c1.ops[r1.args['out']])
+                    if B is None: continue
+                    for c2, t2 in calls:
+                        if c2 is c1 or t2[0] != 'direct' or t2[1] not in self.defined or t2[1] in lazy: continue
+                        if not f.inst_dominates(c1, c2): continue
+                        g = self.defined[t2[1]]
+                        bi = wi = None
+                        for n, a in enumerate(c2.ops[:len(g.params)]):
+                            al = alloca_of(f, a)
+                            if al is None: continue
+                            if al is B: bi = n
+                            elif al.d.get('alloc_kind') == 'array' and '*]' in (al.d.get('alloc_ty') or ''): wi = n
+                        if bi is not None and wi is not None:
+                            r = seen.get(g.name)
+                            if r is None:
+                                r = seen[g.name] = Role(g, {'buf': bi, 'words': wi}); out.append(r)
+                            for n, a in enumerate(c2.ops[:len(g.params)]):
+                                if n in (bi, wi): continue
+                                c = const_of(a)
+                                r.consts[n] = c if (n not in r.consts or r.consts[n] == c) else None
+        else:
+            raise AnalysisBroken('unknown role %s' % kind)
+        self._roles[kind] = out
+        return out
+
+    def role_fn(self, name, kind):
+        """the Role of function `name` for this kind, or None"""
+        for r in self.roles(kind):
+            if r.fn.name == name: return r
+        return None
+
     def is_dbg(self, inst):
         return inst.op == 'call' and inst.d.get('callee', '').startswith('llvm.dbg.')
 
@@ -332,6 +394,14 @@ class Program:
             seen.add(x)
             st.extend(cg.get(x, ()))
         return seen
+
+
+class Role:
+    def __init__(self, fn, args):
+        self.fn = fn; self.args = args; self.consts = {}
+
+    def __repr__(self):
+        return 'Role(%s, %r, %r)' % (self.fn.name, self.args, self.consts)
 
 
 def is_ptr_ty(t):
